@@ -21,11 +21,15 @@ def key(v, ev):
     return str(pred)
 
 
+def gen():
+    return vlib.generate(SPEC, "MC_Palette", "Gen_Palette.cfg", os.path.join(vlib.GEN, "palette.ndjson"))
+
+
 def run():
     c = Check("C16")
     thorough = c.tier == "thorough"
     c.mc(SPEC, "MC_Palette", "MC_Palette.cfg", workers=4)
-    g = vlib.generate(SPEC, "MC_Palette", "Gen_Palette.cfg", os.path.join(vlib.GEN, "palette.ndjson"))
+    g = gen()
     trace = os.path.join(c.workdir, "trace.ndjson")
     vlib.drive(["c16", "--out", trace, "--seed", c.seed, "--tier", c.tier, "--gen", os.path.join(vlib.GEN, "palette.ndjson")])
     # split into shards at reset boundaries for parallel validation
